@@ -57,6 +57,23 @@ def proxy_consumed(f, sink_param='c'):
                     pf = hir.unconditional_calls(hir.stmts_of(s0['body']), lambda c: c.get('k') == 'MethodCall' and c['name'] == 'push_front' and sink and hir.local(c['recv']) and hir.local(c['recv'])[1] == sink[0]
                                                  and hir.local(c['args'][0]) and hir.local(c['args'][0])[1] in vid)
                     consumed = len(pf) == 1
+            # iterator form: proxy.gates.into_iter().for_each(|g| sink.push_front(g)) as a top-level statement
+            if s0.get('k') == 'MethodCall' and s0['name'] == 'for_each' and s0['args'] and hir.strip(s0['args'][0]).get('k') == 'Closure':
+                src = hir.strip(s0['recv'])
+                while src.get('k') == 'MethodCall' and src['name'] in ('into_iter', 'iter', 'drain', 'cloned'):
+                    src = hir.strip(src['recv'])
+                pl = hir.place(src)
+                cl = hir.strip(s0['args'][0])
+                if pl and pl[0] == pid and pl[2] == [('f', 'gates')] and len(cl['params']) == 1:
+                    vid = [i for _n, i in hir.bindings(cl['params'][0])]
+                    b = hir.strip(cl['body'])
+                    if b.get('k') == 'MethodCall' and b['name'] == 'push_front' and sink and hir.local(b['recv']) and hir.local(b['recv'])[1] == sink[0] and hir.local(b['args'][0]) and hir.local(b['args'][0])[1] in vid:
+                        consumed = True
+        if not consumed:
+            # dropped for certain only when the proxy is never mentioned outside the calls that fill it; any other use is a shape this rule does not read
+            mentions = [n for n in hir.nodes(f['hir']) if hir.local(n) and hir.local(n)[1] == pid]
+            fill = [x for c in hir.calls(f['hir']) if c.get('k') == 'MethodCall' and c['name'] in ('gauss_with_proxy', 'add_row') for x in hir.nodes(c) if hir.local(x) and hir.local(x)[1] == pid]
+            consumed = False if len(mentions) <= len(fill) else None
         res.append((name, used, consumed))
     return res
 
@@ -193,7 +210,7 @@ def _run_own(ck):
         fk = ck.fn(key)
         for name, used, consumed in proxy_consumed(fk):
             np_ += 1
-            ck.ob('R-PAIR-proxy', '%s/%s' % (key, name), used and consumed, ck.site(key), 'the proxy circuit `%s` that records the row operations is %s' % (name, 'never consumed into the output circuit (on every path)' if used else 'not used as the proxy'))
+            ck.ob3('R-PAIR-proxy', '%s/%s' % (key, name), (None if consumed is None else bool(consumed)) if used else False, ck.site(key), 'the proxy circuit `%s` that records the row operations is %s' % (name, 'never consumed into the output circuit (on every path)' if used else 'not used as the proxy'))
     ck.floor('R-PAIR-proxy', np_, 3)
     sg = ck.fn(EX + 'simple_gauss')
     ub = [c for c in hir.calls(sg['hir']) if c.get('k') == 'MethodCall' and c['name'] == 'update_frontier_biadj']
@@ -308,7 +325,22 @@ def _run_own(ck):
         flags = [hir.pp(c[1]).replace('self.', '') for c in p.conds if c[0] == 'cond' and c[2]]
         tbl.append((flags[-1] if flags else None, [hir.callee(e).rsplit('::', 1)[1] for e in p.events]))
     want = [('full', ['full_simp']), ('flow', ['flow_simp']), ('clifford', ['clifford_simp']), (None, [])]
-    ck.ob('R-TABLE-config', 'OptMethod::simp', tbl == want, ck.site('cli::opt::OptMethod::simp'), 'method flags select %s, expected full->full_simp, flow->flow_simp, clifford->clifford_simp' % tbl, sample={'table': str(tbl)})
+    # (round 2) decided by evaluating the dispatch for every combination of the three flags on a host that records which simplifier is called
+    try:
+        from .. import minirust as _mr
+        import itertools
+        bad = None
+        for full, flow, cliff in itertools.product((True, False), repeat=3):
+            log = []
+            it = _mr.Interp(fuel=2000, facts=facts, inline=lambda c: False)
+            it.host_call = lambda c, e, args, _l=log: (_l.append(c.rsplit('::', 1)[-1]), True)[1] if c.startswith('simplify::') else NotImplemented
+            it.local_call('cli::opt::OptMethod::simp', [{'__struct__': 'cli::opt::OptMethod', 'full': full, 'flow': flow, 'clifford': cliff}, _mr.Obj('graph', {}, strict=False)])
+            exp = ['full_simp'] if full else ['flow_simp'] if flow else ['clifford_simp'] if cliff else []
+            if log != exp and bad is None:
+                bad = 'with full=%s flow=%s clifford=%s the simplifiers called are %s, expected %s' % (full, flow, cliff, log, exp)
+        ck.ob('R-TABLE-config', 'OptMethod::simp', bad is None, ck.site('cli::opt::OptMethod::simp'), 'the method flags must select full -> full_simp, else flow -> flow_simp, else clifford -> clifford_simp: %s' % bad)
+    except (_mr.NoEval, _mr.Proceed, TypeError, KeyError, IndexError, AttributeError, ValueError) as ex:
+        ck.ob3('R-TABLE-config', 'OptMethod::simp', True if tbl == want else None, ck.site('cli::opt::OptMethod::simp'), 'the dispatch is not evaluable (%s) and was read as %s, expected full->full_simp, flow->flow_simp, clifford->clifford_simp' % (ex, tbl), sample={'table': str(tbl)})
     df = ck.fn('<cli::opt::OptMethod as std::default::Default>::default')
     flds = {fn_: hir.lit_bool(e) for n in hir.nodes(df['hir']) if n.get('k') == 'Struct' for fn_, e in n['fields']}
     ck.ob('R-TABLE-config', 'OptMethod::default', flds == {'full': True, 'flow': False, 'clifford': False}, ck.site('<cli::opt::OptMethod as std::default::Default>::default'), 'the default method must be --full: %s' % flds)
